@@ -14,9 +14,12 @@ TraceNext ==
     /\ l <= Len(Trace)
     /\ l' = l + 1
     /\ LET e == Trace[l]
-           x == Expected(SeqOf(e.text), KwsOf(e))
+           \* a snippet given as the default of the global ConfigMap is unaffected by the option: no keyword applies to it
+           kws == IF e.src = "global" THEN {} ELSE KwsOf(e)
+           x == Expected(SeqOf(e.text), kws)
        IN bad' = IF LinesOf(e) = x THEN bad
-                 ELSE bad \cup {[id |-> e.id, inv |-> IF Dropped(SeqOf(e.text), KwsOf(e)) THEN "DroppedSnippetEmitted" ELSE "SnippetNotVerbatim",
+                 ELSE bad \cup {[id |-> e.id, inv |-> IF e.src = "global" /\ Dropped(SeqOf(e.text), KwsOf(e)) THEN "GlobalSnippetFiltered"
+                                               ELSE IF Dropped(SeqOf(e.text), kws) THEN "DroppedSnippetEmitted" ELSE "SnippetNotVerbatim",
                                  src |-> e.src]}
     /\ UNCHANGED txt
 
